@@ -835,12 +835,24 @@ func init() {
 		ID: "C20.R19", Props: []string{"C20"}, Min: 1,
 		Doc: "Markdown text is unescaped by Markdown's rules: the Markdown package resolves character references with goldmark's own util (ResolveNumericReferences, ResolveEntityNames, UnescapePunctuations) — the functions the reference renderer uses — and never with html.UnescapeString. HTML5 also decodes legacy names without a semicolon (`&copy 2024`, `?a=1&lt=5`); CommonMark does not: titles, alt texts and info strings would differ from the reference",
 		Run: func(p *Prog, c *Ctx) {
+			// plainText: the one place where Markdown *source* (a title, an alt text, an info string) becomes text.
+			// (headingID unescapes rendered HTML, which is HTML.)
+			root := p.MustFn("markdown.plainText")
+			set := map[*ssa.Function]bool{}
+			var add func(f *ssa.Function)
+			add = func(f *ssa.Function) {
+				if f == nil || set[f] || !inModule(f) {
+					return
+				}
+				set[f] = true
+				for _, site := range callsIn(f) {
+					add(site.Common().StaticCallee())
+				}
+			}
+			add(root)
 			n := 0
 			bad := ""
-			for _, fn := range p.liveFuncs() {
-				if pk := funcPkg(fn); pk == nil || pk.Path() != markdownPkg {
-					continue
-				}
+			for _, fn := range sortedFuncs(set) {
 				for _, site := range callsIn(fn) {
 					n++
 					if nm := calleeName(site.Common()); nm == "html.UnescapeString" || nm == "golang.org/x/net/html.UnescapeString" {
@@ -848,7 +860,7 @@ func init() {
 					}
 				}
 			}
-			c.check(bad == "", "markdown: references are resolved with goldmark's util", "-", fmt.Sprintf("%d calls, none to html.UnescapeString", n), "html.UnescapeString is used in "+bad+": it follows the HTML5 grammar (legacy entity names and numbers without a semicolon are decoded), the reference renderer follows CommonMark's")
+			c.check(bad == "", "plainText: references are resolved with goldmark's util", p.pos(root.Pos()), fmt.Sprintf("%d calls, none to html.UnescapeString", n), "html.UnescapeString is used in "+bad+": it follows the HTML5 grammar (legacy entity names and numbers without a semicolon are decoded), the reference renderer follows CommonMark's")
 		},
 	})
 }
